@@ -22,6 +22,7 @@ from typing import (
 
 import numpy
 from affine import Affine
+from shapely.errors import GEOSException
 
 from . import geom
 from .crs import CRS, MaybeCRS, SomeCRS, norm_crs
@@ -1497,17 +1498,34 @@ class GeoboxTiles:
             src_footprint = src.base.extent
         else:
             # compute "robust" source footprint in CRS of self via espg:4326
-            src_footprint = src.base.footprint(4326, 2) & self.base.footprint(4326, 2)
-            if src_footprint.is_empty:
-                return {}  # no overlap
-            src_footprint = src_footprint.to_crs(self.base.crs)
+            try:
+                src_footprint = src.base.footprint(4326, 2) & self.base.footprint(
+                    4326, 2
+                )
+            except GEOSException:
+                # footprint reaches a pole or the edge of the projection domain
+                src_footprint = None
+            if src_footprint is not None:
+                if src_footprint.is_empty:
+                    return {}  # no overlap
+                src_footprint = src_footprint.to_crs(self.base.crs)
 
-        xy_chunks_with_data = list(self.tiles(src_footprint))
+        if src_footprint is None:
+            # could not tell, consider every tile
+            xy_chunks_with_data = list(numpy.ndindex(self.shape.yx))
+        else:
+            xy_chunks_with_data = list(self.tiles(src_footprint))
         deps: Dict[Tuple[int, int], List[Tuple[int, int]]] = {}
 
         for idx in xy_chunks_with_data:
             geobox = self[idx]
-            deps[idx] = list(src.tiles(geobox.extent))
+            try:
+                deps[idx] = list(src.tiles(geobox.extent))
+            except GEOSException:
+                # tile extent does not project into the source CRS as a valid
+                # polygon (it spans the world, or leaves the projection domain),
+                # any source tile might be needed
+                deps[idx] = list(numpy.ndindex(src.shape.yx))
 
         return deps
 
